@@ -7,6 +7,7 @@ import (
 	"crypto/x509"
 	"errors"
 	"fmt"
+	"hash/fnv"
 	"runtime/debug"
 	"strings"
 	"time"
@@ -58,18 +59,24 @@ func trimStack(s string) string {
 }
 
 // Options builds verify.Options for a case together with its recording getter.
+var verifyZones = []*time.Location{time.UTC, time.FixedZone("", 14*3600), time.FixedZone("", -12*3600), time.FixedZone("", 5*3600+45*60)}
+
 func Options(c *world.Case) (*verify.Options, *world.Getter) {
 	g := &world.Getter{R: c.Resp}
+	// the same five instants, expressed in a time zone picked by the case's label: a verdict depends on instants only
+	h := fnv.New32a()
+	h.Write([]byte(c.Class + "|" + c.Param))
+	z := verifyZones[h.Sum32()%uint32(len(verifyZones))]
 	o := &verify.Options{
 		GetCollateral:    c.GetCollateral,
 		CheckRevocations: c.CheckCRL,
 		Getter:           g,
 		Now: &verify.TimeSet{
-			PckCertChain: c.Times[world.TPckCertChain],
-			TcbInfo:      c.Times[world.TTcbInfo],
-			QeIdentity:   c.Times[world.TQeIdentity],
-			PckCrl:       c.Times[world.TPckCrl],
-			RootCaCrl:    c.Times[world.TRootCaCrl],
+			PckCertChain: c.Times[world.TPckCertChain].In(z),
+			TcbInfo:      c.Times[world.TTcbInfo].In(z),
+			QeIdentity:   c.Times[world.TQeIdentity].In(z),
+			PckCrl:       c.Times[world.TPckCrl].In(z),
+			RootCaCrl:    c.Times[world.TRootCaCrl].In(z),
 		},
 	}
 	if !c.Embedded {
@@ -211,7 +218,6 @@ func runVerify(c *world.Case, o *verify.Options, g *world.Getter) Outcome {
 	out.AsRecreation = errors.As(err, &re)
 	return out
 }
-
 
 // GuardTimed runs f like Guard but gives up waiting after d: hung reports that f had not returned by then
 // (its goroutine is left behind). A first time-out is only a suspicion — on a loaded machine slow is not hung —
